@@ -274,7 +274,47 @@ def check_case(sink, c, o, seed, idx, pool):  # noqa: C901
     sink.case(harness.fp(c.desc.short(), o.key(), inner_desc.short()), ref.shape.internal_nodes() >= 2, dict(ident2, treespec=repr(spec)[:200]))
 
 
+class FlakyRepr:
+    """an object whose repr raises the first time it is asked for (not ready yet) and works afterwards."""
+
+    def __init__(self, tag):
+        self.tag, self.fail = tag, True
+
+    def __repr__(self):
+        if self.fail:
+            self.fail = False
+            raise KeyError('repr not ready')
+        return f'FlakyRepr({self.tag})'
+
+
+def repr_history(sink, n):
+    """repr after a repr that failed: the notation is a function of the treespec, not of what happened to an earlier call."""
+    for i in range(n):
+        k, m = FlakyRepr(('key', i)), FlakyRepr(('meta', i))
+        tree = [{k: 1, 'b': (2, None)}, U.CSeq([3, {'z': 4}], meta=m), 5]
+        sp = optree.tree_structure(tree, none_is_leaf=bool(i % 2))
+        failures = 0
+        for _ in range(3):
+            try:
+                got = repr(sp)
+                break
+            except KeyError:
+                failures += 1
+                got = None
+        want = repr(optree.tree_structure(tree, none_is_leaf=bool(i % 2)))  # a fresh, equal treespec over the same (now well-behaved) objects
+        ident = dict(part='repr-history', i=i, failed_reprs=failures)
+        sink.check(isinstance(got, str) and got == want and got.startswith('PyTreeSpec(') and str(sp) == want, 'repr/after-failed-repr', 'repr renders the documented notation, also after an earlier repr of the same treespec failed', ident, lambda: (got, want))
+        kids = sp.children()
+        sink.check(all(repr(c_).startswith('PyTreeSpec(') for c_ in kids) and repr(sp.one_level()).startswith('PyTreeSpec('), 'repr/after-failed-repr/derived', 'derived treespecs print in the documented notation', ident)
+        del sp, kids
+        fresh = [optree.tree_structure((j, [j, {'a': j}])) for j in range(6)]  # new treespecs, possibly at the address of the one just freed
+        sink.check(all(repr(f_) == 'PyTreeSpec((*, [*, {\'a\': *}]))' for f_ in fresh), 'repr/after-failed-repr/unrelated', 'unrelated treespecs are printed normally afterwards', ident, lambda: [repr(f_) for f_ in fresh][:3])
+        sink.count('repr-history-cases')
+
+
 def run_shard(sink, tier, seed, shard):
+    if (shard or {}).get('i', 0) == 0:
+        sink.guard('harness', 'repr-history', {}, lambda: repr_history(sink, 60))
     n_trees = harness.scale(6000, 120000, tier)
     k = 4 if tier == 'quick' else 6
     opts = gen.all_opts()
@@ -291,6 +331,7 @@ def finalize(sink, tier, seed):
     sink.require('compose-actual-trees')
     sink.require('transform-varying', 100)
     sink.require('re-entrant-transforms', 100)
+    sink.require('repr-history-cases', 20)
     for ctor in ('treespec_tuple', 'treespec_list', 'treespec_dict', 'treespec_ordereddict', 'treespec_defaultdict', 'treespec_deque', 'treespec_namedtuple', 'treespec_structseq',
                  'from_collection:custom'):
         sink.require(f'ctor:{ctor}')
